@@ -473,7 +473,41 @@ def user_rejected(E, cfg):
             E.check(s2.amount == 2 * r.amount, 'after-rejected-sum', key='after-rejected:sum', info=info + [label])
 
 
-USER_PROGS = ['user_price', 'user_cancel', 'user_derived', 'user_rejected']
+def user_same_prefix(E, cfg):
+    """types whose names are equal or share a long prefix: products and quotients in either operand order"""
+    from quantity import Quantity
+    n1, n2 = E.choice('names', [('QuantityTypeWithAVeryLongCommonNameA', 'QuantityTypeWithAVeryLongCommonNameB'), ('Same', 'Same')])
+    A = C.mk_cls(n1, ref_unit_symbol='pa0')
+    B = C.mk_cls(n2, ref_unit_symbol='pb0')
+    if E.choice('declared-as', ['a*b', 'b*a']) == 'a*b':
+        P = C.mk_cls('PProd', define_as=A * B)
+    else:
+        P = C.mk_cls('PProd', define_as=B * A)
+    Qt = C.mk_cls('PQuot', define_as=B / A)
+    a1 = A.new_unit('pa1', None, 4 * A.ref_unit)
+    x = E.rational('x', 'dec')
+    y = E.rational('y', 'frac')
+    E.assume(E.And(x != 0, y != 0))
+    qa, qb = Quantity(x, a1), Quantity(y, B.ref_unit)
+    for label, fn, cls, exact in (('a*b', lambda: qa * qb, P, 4 * x * y), ('b*a', lambda: qb * qa, P, 4 * x * y),
+                                  ('ua*ub', lambda: a1 * B.ref_unit, P, Fraction(4)), ('ub*ua', lambda: B.ref_unit * a1, P, Fraction(4)),
+                                  ('b/a', lambda: qb / qa, Qt, y / (4 * x)), ('p/a', lambda: (qa * qb) / qa, B, y),
+                                  ('p/b', lambda: (qb * qa) / qb, A, 4 * x)):
+        try:
+            r = fn()
+        except Exception as e:
+            E.fail('same-prefix-' + label, key='same-prefix:%s' % type(e).__name__, info=[n1, label])
+            continue
+        if isinstance(r, tuple):
+            amnt, ru = r
+            E.check(ru is not None and ru.qty_cls is cls and amnt * C.scale(ru) == exact, 'same-prefix-unit-product',
+                    key='same-prefix:value', info=[n1, label])
+        else:
+            E.check(type(r) is cls and r.amount * C.scale(r.unit) == exact, 'same-prefix-result', key='same-prefix:value',
+                    info=[n1, label])
+
+
+USER_PROGS = ['user_price', 'user_cancel', 'user_derived', 'user_rejected', 'user_same_prefix']
 
 
 def user_prog(E, cfg):
